@@ -807,13 +807,14 @@ Section Main.
     tr_apat C oc p a (PLit v) = [infer (f_iter C oc a) (is_coll v) false false false (PAttr p a) v].
   Proof. reflexivity. Qed.
   Lemma fok_apat_lit oc p a v :
-    fok_apat C objcls false oc p a (PLit v) = is_some (f_type C oc a) && (f_iter C oc a || negb (is_coll v)).
+    fok_apat C objcls false oc p a (PLit v) = is_some (f_type C oc a) && (f_iter C oc a || negb (is_coll v)) && negb (f_bcoll C oc a).
   Proof. reflexivity. Qed.
 
-  Lemma scalar_not_coll o oc a d : inst o oc -> f_type C oc a = Some d -> f_iter C oc a = false -> is_coll (attr W o a) = false.
+  Lemma scalar_not_coll o oc a d : inst o oc -> f_type C oc a = Some d -> f_iter C oc a = false ->
+    f_bcoll C oc a = false -> is_coll (attr W o a) = false.
   Proof.
-    intros Hi Hd Hit. pose proof (Htyped o oc a d Hi Hd) as Ht. rewrite Hit in Ht.
-    destruct (objcls d); auto. destruct Ht as [o' [-> _]]. reflexivity.
+    intros Hi Hd Hit Hb. pose proof (Htyped o oc a d Hi Hd) as Ht. rewrite Hit in Ht.
+    destruct (objcls d); [destruct Ht as [o' [-> _]]; reflexivity|]. destruct Ht as [Ht|Ht]; [congruence|exact Ht].
   Qed.
   Lemma coll_is_list o oc a d : inst o oc -> f_type C oc a = Some d -> f_iter C oc a = true ->
     exists xs, attr W o a = VLO xs /\ forall x, In x xs -> sub C (otype M x) d = true.
@@ -821,7 +822,8 @@ Section Main.
 
   Lemma C_lit v : C_stmt (PLit v).
   Proof.
-    intros oc p a e o Hg Hp Hi Hf Hok. rewrite fok_apat_lit in Hok. apply andb_true_iff in Hok. destruct Hok as [Hty Hsh].
+    intros oc p a e o Hg Hp Hi Hf Hok. rewrite fok_apat_lit in Hok. apply andb_true_iff in Hok. destruct Hok as [Hok Hbc].
+    apply negb_true_iff in Hbc. apply andb_true_iff in Hok. destruct Hok as [Hty Hsh].
     destruct (f_type C oc a) as [d|] eqn:Hd; [|discriminate].
     rewrite tr_apat_lit. change (lax_apat C M oc p a (PLit v) (attr W o a)) with (lit_ok M (attr W o a) v).
     unfold infer, infer_kind, infer_exists.
@@ -836,7 +838,7 @@ Section Main.
       + unfold lit_ok. rewrite Hav. cbn [is_coll cmp]. symmetry. apply common_scalar_lit; auto.
     - replace (lit_ok M (attr W o a) v) with (cmp M OEq (attr W o a) v).
       + apply cmp_attr; auto.
-      + unfold lit_ok. rewrite (scalar_not_coll o oc a d Hi Hd Hit). reflexivity.
+      + unfold lit_ok. rewrite (scalar_not_coll o oc a d Hi Hd Hit Hbc). reflexivity.
   Qed.
 
   Lemma tr_apat_any oc p a v : tr_apat C oc p a (PAny v) = tr_vals C oc p a v false true.
@@ -851,7 +853,8 @@ Section Main.
   Lemma C_any v : C_stmt (PAny v).
   Proof.
     intros oc p a e o Hg Hp Hi Hf Hok.
-    change (fok_apat C objcls false oc p a (PAny v)) with (is_some (f_type C oc a) && is_coll v) in Hok.
+    change (fok_apat C objcls false oc p a (PAny v)) with (is_some (f_type C oc a) && is_coll v && negb (f_bcoll C oc a)) in Hok.
+    apply andb_true_iff in Hok. destruct Hok as [Hok Hbc]. apply negb_true_iff in Hbc.
     apply andb_true_iff in Hok. destruct Hok as [Hty Hcv].
     destruct (f_type C oc a) as [d|] eqn:Hd; [|discriminate].
     rewrite tr_apat_any, tr_vals_literal.
@@ -863,7 +866,7 @@ Section Main.
       + rewrite Hav. symmetry. apply common_coll; auto.
     - replace (common M (attr W o a) v) with (cmp M OIn (attr W o a) v).
       + apply cmp_attr; auto.
-      + cbn [cmp]. symmetry. apply common_scalar_attr; auto. apply (scalar_not_coll o oc a d Hi Hd Hit).
+      + cbn [cmp]. symmetry. apply common_scalar_attr; auto. apply (scalar_not_coll o oc a d Hi Hd Hit Hbc).
   Qed.
 
   Lemma C_all v : C_stmt (PAll v).
@@ -1873,11 +1876,11 @@ Proof.
     destruct (IHc _ _ _ Hc) as [Hs Hu].
     change (unk_alist C oc (ACons a c rest)) with (negb (is_some (f_type C oc a)) || unk_apat C oc a c || unk_alist C oc rest).
     rewrite Hs, Hu, (IHr _ _ Hr). reflexivity.
-  - intros v oc p a H. simpl in H. apply andb_true_iff in H. tauto.
+  - intros v oc p a H. simpl in H. repeat (apply andb_true_iff in H; destruct H as [H _]). tauto.
   - intros [t l] IH oc p a H. split; [|eapply IH; exact H].
     change (fok_apat C objcls false oc p a (PMatch (Pat t l))) with (fok_pat C objcls false oc p a (Pat t l)) in H.
     rewrite fok_pat_eq in H. cbv zeta in H. repeat (apply andb_true_iff in H; destruct H as [H _]). exact H.
-  - intros v oc p a H. simpl in H. apply andb_true_iff in H. destruct H as [H _]. tauto.
+  - intros v oc p a H. simpl in H. repeat (apply andb_true_iff in H; destruct H as [H _]). tauto.
   - intros v oc p a H. simpl in H. repeat (apply andb_true_iff in H; destruct H as [H _]). tauto.
   - intros v oc p a H. discriminate H.
   - intros c IH oc p a H. simpl in H. destruct c; try discriminate; simpl; apply (IH oc p a); exact H.
